@@ -91,7 +91,9 @@ CLAIMED = {
    text="Lean proof over M-Resolve (module skeletons of any size): in every accepted module each reference to a type, comdat, global entity or metadata node resolves to an "
         "object that is a listed definition of exactly that namespace and key (forward/mutual/self references alike), locals resolve inside their own function, and the resolved "
         "edges are exactly the index lookups. Tied by agreement on acceptance and ordered definition lists for generated modules, and by a reflection walk of the whole parsed "
-        "object graph (orphans, placeholders, foreign locals, parent links). Partial: instruction payloads are abstracted to reference sites.",
+        "object graph (orphans, placeholders, foreign locals, parent links), by mod.refs (the comdat / attribute groups each entity is bound to, by name). On real text (M-Whole): "
+        "whole_global_refs_resolve — every @name operand of every accepted module names a global variable or function the module lists. Partial: outside M-Whole instruction "
+        "payloads are abstracted to reference sites.",
    note="Lean kernel + propext/Quot.sound; M-Resolve hand-written; generator renders text and skeleton from one description; closure walker trusted.",
    technique=T, design="§4 C04"),
  "C05": dict(
@@ -108,9 +110,10 @@ CLAIMED = {
  "C01": dict(
    text="Partial. Lean proof of the print->parse round trip for five byte-level fragments: M-Whole (WHOLE MODULES: type definitions, global variables, function definitions and the metadata "
         "section in one text, top-level splitter, cross-fragment checks: whole_roundtrip), M-Meta (the metadata section: numbered tuples with null / reference / string / typed-constant / nested-tuple "
-        "fields, distinct, named metadata: meta_roundtrip), M-Core-3 (FUNCTION DEFINITIONS: any number of parameters and named / numbered blocks, 74 instruction and "
+        "fields, distinct, named metadata: meta_roundtrip), M-Core-3 (FUNCTION DEFINITIONS: any number of parameters and named / numbered blocks, 76 instruction and "
         "terminator rows — the integer and floating-point binary operations, icmp / fcmp with every predicate, load / store / alloca with an optional alignment, select, the 13 conversions, phi, freeze, "
-        "fneg, the vector element instructions, extractvalue / insertvalue with index paths, getelementptr (typed through the C07 model), ret, br, conditional br, unreachable — over local values incl. forward references "
+        "fneg, the vector element instructions, extractvalue / insertvalue with index paths, getelementptr (typed through the C07 model), call (void and value, any argument list), ret, br, conditional br, unreachable — over local values incl. forward references, "
+        "global variables and functions of the enclosing module (@name operands: whole_global_refs_resolve) "
         "and nested constants; generic row-table reader proved to invert the printer, translation = asm/local.go: numbering, duplicates, undefined uses, label kinds, operand "
         "retyping), M-Core (opaque type definitions + integer globals: all names, widths, values, both literal "
         "notations) and M-Core-2 (identified struct type definitions with bodies of arbitrarily nested types; global variables / constants of ANY type initialised by integers "
